@@ -78,3 +78,37 @@ func (c *Chain) BuildPriceTx(signer ConsKey, sig PriceSig, other ConsKey, msgs .
 	}
 	return encCfg.TxConfig.TxEncoder()(txBuilder.GetTx())
 }
+
+// BuildPriceTxMulti builds a create-price transaction with several signers: signature i carries
+// the public key of signers[i] and is made with the private key of signWith[i] (the honest case
+// is signWith == signers; a forged co-signature uses somebody else's key).
+func (c *Chain) BuildPriceTxMulti(signers, signWith []ConsKey, msgs ...sdk.Msg) ([]byte, error) {
+	txBuilder := encCfg.TxConfig.NewTxBuilder()
+	if err := txBuilder.SetMsgs(msgs...); err != nil {
+		return nil, err
+	}
+	txBuilder.SetGasLimit(0)
+	mode := signing.SignMode_SIGN_MODE_DIRECT
+	sigs := make([]signing.SignatureV2, len(signers))
+	for i, k := range signers {
+		sigs[i] = signing.SignatureV2{PubKey: k.Priv.PubKey(), Data: &signing.SingleSignatureData{SignMode: mode}, Sequence: 0}
+	}
+	if err := txBuilder.SetSignatures(sigs...); err != nil {
+		return nil, err
+	}
+	bytesToSign, err := encCfg.TxConfig.SignModeHandler().GetSignBytes(mode, authsigning.SignerData{ChainID: c.W.Cfg.ChainID}, txBuilder.GetTx())
+	if err != nil {
+		return nil, err
+	}
+	for i := range signers {
+		sb, err := signWith[i].Priv.Sign(bytesToSign)
+		if err != nil {
+			return nil, err
+		}
+		sigs[i].Data = &signing.SingleSignatureData{SignMode: mode, Signature: sb}
+	}
+	if err := txBuilder.SetSignatures(sigs...); err != nil {
+		return nil, err
+	}
+	return encCfg.TxConfig.TxEncoder()(txBuilder.GetTx())
+}
